@@ -63,6 +63,16 @@ pub fn run(f: &[&str]) -> String {
                         ));
                     }
                 }
+                // the unfolded flat expression converted to the deep form (literal nodes still carry
+                // their unary operators here)
+                match F::parse_wo_compile(&text).and_then(|w| w.to_deepex()) {
+                    Err(_) => out.push_str("\two2d=E"),
+                    Ok(d) => {
+                        let vd = sym_vars(d.var_names().len());
+                        let r = d.eval(&vd);
+                        out.push_str(&format!("\two2d_nf={}\two2d={}\two2dtext={}", res_nf(&r, &t), res(r), hex(d.unparse())));
+                    }
+                }
                 // history
                 let mut cur: Result<Either, ()> = Ok(Either::Fl(e.clone()));
                 for c in hist.chars() {
